@@ -2924,7 +2924,7 @@ class PyCdlib:
                 self._outfp_write_with_check(outfp, rec)
                 progress.call(len(rec))
 
-            written_file_entry_inodes = set()
+            written_file_entry_extents = set()
             udf_file_entries = collections.deque([(self.udf_root, True)])  # type: Deque[Tuple[Optional[udfmod.UDFFileEntry], bool]]
             while udf_file_entries:
                 udf_file_entry, isdir = udf_file_entries.popleft()
@@ -2932,12 +2932,16 @@ class PyCdlib:
                 if udf_file_entry is None:
                     continue
 
-                if udf_file_entry.inode is None or not id(udf_file_entry.inode) in written_file_entry_inodes:
+                # File Entries that are hard links to one another live at the
+                # same extent and are written once.  (Going by the Inode
+                # instead would skip entries that merely share an Inode, like
+                # all zero-length files of an ISO that was opened.)
+                if udf_file_entry.extent_location() not in written_file_entry_extents:
                     outfp.seek(udf_file_entry.extent_location() * self.logical_block_size)
                     rec = udf_file_entry.record()
                     self._outfp_write_with_check(outfp, rec)
                     progress.call(len(rec))
-                    written_file_entry_inodes.add(id(udf_file_entry.inode))
+                    written_file_entry_extents.add(udf_file_entry.extent_location())
 
                 if isdir:
                     outfp.seek(udf_file_entry.fi_descs[0].extent_location() * self.logical_block_size)
